@@ -1010,7 +1010,7 @@ def position_dumps(run, pid, tier):
     # the record handed to the search at every go (go_start events of the same sessions)
     merged2 = []
     for evs, tp in zip(merged, traces):
-        starts = []
+        starts, srch = [], []
         if os.path.exists(tp):
             for l in open(tp):
                 e = json.loads(l)
@@ -1021,6 +1021,9 @@ def position_dumps(run, pid, tier):
                                    "table": [[x[0], x[1]] for x in e["table"] if x[1] != 0]})
                     if len(str(e.get("slice", ""))) <= 9 and str(e.get("slice", "")).isdigit():
                         starts[-1]["slice"] = int(e["slice"])
+                elif e["ev"] == "srch_start":
+                    # the k-th search thread belongs to the k-th go that reached the search
+                    srch.append([[x[0], x[1]] for x in e["table"] if x[1] != 0])
         searched, cur = set(), None
         for i, e in enumerate(evs):
             if e["ev"] == "in" and e.get("go"):
@@ -1034,6 +1037,8 @@ def position_dumps(run, pid, tier):
         for i, e in enumerate(evs):
             out.append(e)
             if i in searched and k < len(starts):
+                if k < len(srch):
+                    starts[k]["stable"] = srch[k]
                 out.append(starts[k])
                 k += 1
         merged2.append(out)
@@ -1087,7 +1092,7 @@ def thread_events(run, pid, tier, with_tables=False, sessions_override=None):
         # command in force at that moment
         merged2 = []
         for evs, tp in zip(logs, traces_kept):
-            starts = []
+            starts, srch = [], []
             for l in tp:
                 e = json.loads(l)
                 if e["ev"] == "go_start":
@@ -1097,6 +1102,9 @@ def thread_events(run, pid, tier, with_tables=False, sessions_override=None):
                                    "table": [[x[0], x[1]] for x in e["table"] if x[1] != 0]})
                     if len(str(e.get("slice", ""))) <= 9 and str(e.get("slice", "")).isdigit():
                         starts[-1]["slice"] = int(e["slice"])
+                elif e["ev"] == "srch_start":
+                    # the k-th search thread belongs to the k-th go that reached the search
+                    srch.append([[x[0], x[1]] for x in e["table"] if x[1] != 0])
             # a go answered with the null move never reached the search (no go_start); every other go did
             searched = set()
             cur = None
@@ -1112,6 +1120,8 @@ def thread_events(run, pid, tier, with_tables=False, sessions_override=None):
             for i, e in enumerate(evs):
                 out.append(e)
                 if i in searched and k < len(starts):
+                    if k < len(srch):
+                        starts[k]["stable"] = srch[k]
                     out.append(starts[k])
                     k += 1
             merged2.append(out)
